@@ -1,6 +1,6 @@
 """Configuration of ./check C05 (see cfg/README)."""
 
-PROP = {'drive': ['T2'], 'modules': ['SfntV.Props.C05'],
+PROP = {'drive': ['T2'], 'harness_files': ['area_t2.go'], 'modules': ['SfntV.Props.C05'],
  'required_theorems': ['C05_opcodes',
                        'C05_limits',
                        'C05_bias',
@@ -28,7 +28,7 @@ PROP = {'drive': ['T2'], 'modules': ['SfntV.Props.C05'],
                        'C05_mul_deviates',
                        'C05_flex1_repaired',
                        'C05_clamp_deviates'],
- 'areas': [('t2', 4000, 120000)],
+ 'areas': [('t2', 4000, 120000), ('t2cff', 400, 20000)],
  'rule': 'distinct case lines (charstring bytes, local/global subroutine tables, default/nominal width); '
          'non-trivial = more than 8 code bytes or a designed boundary/fault program',
  'partial': ['PROVED, whole programs: C05_progress / C05_quirks_irrelevant (call-free) and C05_progress_calls / '
@@ -73,7 +73,15 @@ PROP = {'drive': ['T2'], 'modules': ['SfntV.Props.C05'],
              'The V stream t2.wf carries the generator\'s claim in the case line and compares it with the Lean '
              'checkers evaluated by the driver on the bytes; t2.theorem-domain / t2.theorem-domain-calls show how many '
              'sampled programs lie in the theorems\' domain.',
-             'Fuel: C05_loop_fuel / C05_step_consumes for every quirk setting; nested bodies via loop_of_run.'],
+             'Fuel: C05_loop_fuel / C05_step_consumes for every quirk setting; nested bodies via loop_of_run.',
+             'Whole CFF files (D stream t2.cfffile, area t2cff): minimal simple and CID-keyed CFF files (1-3 Font '
+             'DICTs with different local subroutine tables of 0..33900 entries and different default/nominal widths, '
+             'the widths stored as integer or as real DICT operands, glyphs spread over all Font DICTs, local and '
+             'global calls at first/middle/last index) are assembled by the harness from the description in the case '
+             'line, read by the real cff.Read, and every glyph is compared with Spec.T2.interp run with the '
+             'subroutines and widths of ITS Font DICT as the description states them. The Lean side does not parse '
+             'the file (the independent party is the harness\'s own assembler; the CFF container is C13\'s); what is '
+             'tied is the per-FD decoder setup of cff/read.go and the width entries of readPrivate in cff/dict.go.'],
  'modelled_not_verified': ['float64 evaluation in decodeCharString: the model is exact 16.16 fixed point; it equals '
                            'the float computation as long as values stay multiples of 2^-16 below 2^37. div with an '
                            'inexact quotient and sqrt of a non-square leave that domain (model flag St.inexact): '
